@@ -11,6 +11,10 @@ documented value of every ``loop`` attribute from the materialised list and neve
 ``{"kind": "f", "env": "sync", "form": "gen", "items": [...], "filter": cond|null, "else": bool, "body": [stmt...]}``
     Hypothesis part: loop filter, else branch, break / continue (loopcontrols extension), conditional queries.
 
+``{"kind": "n", "env": "sync", "form": "gen", "rows": [[0, 1], [], [2]], "pos": "iter"|"filter"|"else", "a": "revindex", "direct": false}``
+    nested loops (enumerated): the outer loop's ``loop`` is read inside the inner for tag -- in its iterable, its loop
+    filter or its else branch, all of which belong to the outer loop's scope -- and, unless "direct", nowhere else.
+
 ``{"kind": "r", "env": "async", "cform": "agen", "tree": [node...], "q": [...], "filter": cond|null, "else": bool}``
     Hypothesis part: recursive loop over a tree (node = {"v": int, "c": [node...]}), checking depth / depth0
     and the per-level iteration state.
@@ -34,10 +38,14 @@ RULE = (
     "queries and 0-5 for 3 queries) x ordered query selections with repetition from {index, index0, revindex, revindex0, "
     "first, last, length, previtem, nextitem, depth, cycle, changed} (quick <= 2, thorough <= 3) x iteration masks (which iterations, by "
     "index modulo the mask length, run the queries: 1/10/01/001/011, thorough also 100 for <= 2 queries, 1/10/01 for 3) x 11 iterable-form/environment pairs, each rendered and compared with the "
-    "specification; (2) Hypothesis: loops with a loop filter, else branch, break/continue and conditional queries, and "
+    "specification; (1b) enumerated nested loops: the outer loop attribute is read only inside the inner for tag's iterable, "
+    "loop filter or else branch (3 positions x attributes x with/without an additional direct use x row sets (6 fixed ones plus all lists of <= 3, "
+    "thorough <= 4, rows from {[], [0], [1,2], [3,0,1]}) x 11 "
+    "form/environment pairs of the outer iterable); (2) Hypothesis: loops with a loop filter, else branch, break/continue and conditional queries, and "
     "recursive loops over trees of depth <= 4 with per-level forms, in sync and async (real event loop, async generators "
     "that suspend) environments. Non-trivial = (1) a look-ahead attribute (last, nextitem, length, revindex, revindex0) "
-    "queried on some but not all iterations of a sequence with >= 2 items (every case renders unsized forms); (2) the filter "
+    "queried on some but not all iterations of a sequence with >= 2 items (every case renders unsized forms); (1b) the outer "
+    "loop is read only from inside the nested for tag; (2) the filter "
     "removed an item, the else branch was due, a break/continue fired, or the recursion went below the top level; "
     "distinct = distinct case."
 )
@@ -45,6 +53,9 @@ ASSUMPTIONS = [
     "attribute values transcribed from docs/templates.rst (loop variable table, loop filtering, else, recursive loops) "
     "and docs/extensions.rst (loop controls); attributes of a filtered loop describe the filtered sequence",
     "the default Undefined is used: previtem / nextitem at the ends are tested with 'is defined'",
+    "the iterable, the loop filter and the else branch of a for tag are outside that loop's own body: `loop` there is "
+    "the enclosing loop's (tests/test_core_tags.py::test_loop_errors shows the tag's own loop is not visible there; "
+    "docs: loop refers to the innermost loop whose body is being rendered)",
     "iterables are consumed once, are not shared between loops and raise nothing; item values are small ints",
     "the exhaustive part drives render_async() by hand (coroutine.send), the Hypothesis part uses asyncio.run",
     "compiled templates are memoised per process by (environment kind, source): templates are stateless (C29)",
@@ -473,8 +484,107 @@ def _check_r(case):
     return core.Outcome(facts["maxdepth"] >= 2, labels)
 
 
+# -- kind n: nested loops reading the outer loop from inside the inner for tag ------------------
+
+N_ATTRS = ["index", "index0", "revindex", "revindex0", "first", "last", "length", "depth", "cycle", "changed"]
+N_FILTER_ATTRS = ["index", "index0", "revindex", "revindex0", "first", "last", "length", "depth", "cycle"]
+N_POS = ["iter", "filter", "else"]
+
+
+def _n_expr(a):
+    # the outer items are rows (lists); changed() is keyed on the row length
+    return "loop.changed(row|length)" if a == "changed" else attr_expr(a)
+
+
+def _n_filter_expr(a):
+    if a in ("first", "last"):
+        return "loop." + a
+    if a == "cycle":
+        return "loop.cycle(true, false)"
+    return "c < loop." + a
+
+
+def n_source(case):
+    a, pos = case["a"], case["pos"]
+    if a not in (N_FILTER_ATTRS if pos == "filter" else N_ATTRS):
+        raise core.HarnessError("attribute %r at %r" % (a, pos))
+    head = "{{ loop.index }}:" if case["direct"] else ""
+    if pos == "iter":
+        inner = "{%% for c in row + [%s] %%}{{ c }},{%% endfor %%}" % _n_expr(a)
+    elif pos == "filter":
+        inner = "{%% for c in row if %s %%}{{ c }},{%% endfor %%}" % _n_filter_expr(a)
+    elif pos == "else":
+        inner = "{%% for c in row %%}{{ c }},{%% else %%}<{{ %s }}>{%% endfor %%}" % _n_expr(a)
+    else:
+        raise core.HarnessError("position %r" % (pos,))
+    return "{% for row in rows %}" + head + inner + ";{% endfor %}"
+
+
+def n_expected(case):
+    rows, a, pos = case["rows"], case["a"], case["pos"]
+    keys = [2 * len(r) for r in rows]  # attr_value's changed() compares vals[i] // 2, here the row length
+    state = {}
+    out = []
+    for i, row in enumerate(rows):
+        if case["direct"]:
+            out.append("%d:" % (i + 1))
+        if pos == "iter":
+            out.extend("%s," % c for c in row + [attr_value(a, i, keys, 0, state)])
+        elif pos == "filter":
+            for c in row:
+                v = attr_value(a, i, keys, 0, state)
+                keep = v if a in ("first", "last") else (i % 2 == 0 if a == "cycle" else c < v)
+                if keep:
+                    out.append("%s," % c)
+        else:
+            if row:
+                out.extend("%s," % c for c in row)
+            else:
+                out.append("<%s>" % attr_value(a, i, keys, 0, state))
+        out.append(";")
+    return "".join(out)
+
+
+def _check_n(case):
+    envkind, form = case["env"], case["form"]
+    if form not in _forms(envkind):
+        raise core.HarnessError("form %s in %s environment" % (form, envkind))
+    src = n_source(case)
+    exp = n_expected(case)
+    t = _template(envkind, src)
+    rows = make_iterable(form, [list(r) for r in case["rows"]])
+    got = t.render(rows=rows) if envkind == "sync" else _drive(t.render_async(rows=rows))
+    if got != exp:
+        raise core.Violation(
+            "nested loop output differs from the specification (outer loop read inside the inner for tag)\n template: %s\n"
+            " rows: %s form of %r, %s environment\n expected: %r\n observed: %r" % (src, form, case["rows"], envkind, exp, got),
+            expected=exp, observed=got, source=src)
+    labels = ["kind_n", "n_pos_" + case["pos"], "n_direct" if case["direct"] else "n_only_nested"]
+    return core.Outcome(not case["direct"] and len(case["rows"]) >= 1, labels)
+
+
+N_ROWSETS_FIXED = [[], [[]], [[], []], [[1], [0, 2]], [[0, 1, 2], [], [3, 1], [2]], [[2, 0, 1], [1, 2, 3], [0], []]]
+_N_ROW_ALPHABET = [[], [0], [1, 2], [3, 0, 1]]
+
+
+def n_cases(tier):
+    maxrows = 3 if tier == "quick" else 4
+    rowsets = N_ROWSETS_FIXED + [list(map(list, rs)) for k in range(1, maxrows + 1)
+                                 for rs in itertools.product(_N_ROW_ALPHABET, repeat=k)]
+    for pos in N_POS:
+        for a in (N_FILTER_ATTRS if pos == "filter" else N_ATTRS):
+            for direct in (False, True):
+                for rows in rowsets:
+                    for envkind in ("sync", "async"):
+                        for form in _forms(envkind):
+                            yield {"kind": "n", "env": envkind, "form": form, "rows": rows, "pos": pos, "a": a,
+                                   "direct": direct}
+
+
 def check_case(case):
     kind = case["kind"]
+    if kind == "n":
+        return _check_n(case)
     if kind == "q":
         return _check_q(case)
     if kind == "f":
@@ -602,6 +712,7 @@ def run_shard(spec, ctx):
             _minimise_q(rec, case)
             if len(rec.violations) >= 3:
                 break
+    core.enum_shard(core.sliced(n_cases(ctx.tier), ctx.index, ctx.nshards), check_case, ctx, rec=rec)
     f_case, r_case = _strategies()
     core.hyp_shard(f_case, check_case, ctx, ctx.pick(2500, 30000), rec=rec, tag="f")
     core.hyp_shard(r_case, check_case, ctx, ctx.pick(1200, 15000), rec=rec, tag="r")
@@ -624,7 +735,7 @@ def _minimise_q(rec, case):
 
 def floors(total, tier):
     lab = total.labels
-    need = {"kind_q": 1000, "q_lookahead_partial": 1000, "kind_f": 1000, "kind_r": 500, "f_removed": 200, "f_else_due": 100,
+    need = {"kind_q": 1000, "q_lookahead_partial": 1000, "kind_f": 1000, "kind_r": 500, "kind_n": 1000, "n_only_nested": 500, "f_removed": 200, "f_else_due": 100,
             "f_break": 200, "f_continue": 200, "r_depth_3": 50, "r_else_due": 100, "env_async": 500, "form_agen_s": 50}
     low = ["%s=%d<%d" % (k, lab.get(k, 0), v) for k, v in need.items() if lab.get(k, 0) < v]
     if low:
